@@ -1,6 +1,6 @@
 (* Property C08 — exactly the well-formed AIVDM/AIVDO sentence shapes are accepted.
    [WellFormed] (Spec/Grammar.v) is the decomposition in the property statement. *)
-From Ais Require Import Model.Base Model.Sentence Spec.Grammar Proofs.SentenceLemmas Proofs.Reassembly Proofs.Histories Proofs.Strings.
+From Ais Require Import Model.Base Model.Sentence Spec.Grammar Proofs.SentenceLemmas Model.NomBytes Proofs.NomBytesProof Proofs.Reassembly Proofs.Histories Proofs.Strings.
 From Coq Require Import String.
 Local Open Scope N_scope.
 
@@ -35,6 +35,27 @@ Theorem C08_accepted_is_wellformed :
   forall c q st line d fr, snd (step c q st line d) = Ok fr -> WellFormed c line.
 Proof. exact step_ok_wellformed. Qed.
 Print Assumptions C08_accepted_is_wellformed.
+
+(* the numeric fields through the library routines as they are written (Model/NomBytes.v: Rust core's
+   `u8::from_str` behind nom's `digit1`, nom's `hex_u32`): they compute what the grammar above says — the
+   decimal value of the digit run when it is at most 255, however many leading zeros, an error otherwise;
+   the value of at most the first eight hex digits — so the model's [parse_u8_digit] / [hex_u32] are not an
+   idealisation of them.  The harness runs the real routines against these transcriptions (mode N). *)
+Theorem C08_from_str_on_digits :
+  forall ds, ds <> [] -> forallb is_digit ds = true ->
+    from_str_u8 ds = if dec_value ds <=? 255 then Some (dec_value ds) else None.
+Proof. exact from_str_u8_digits. Qed.
+Print Assumptions C08_from_str_on_digits.
+
+Theorem C08_decimal_field_through_library :
+  forall l, parse_u8_digit_lib l = parse_u8_digit l.
+Proof. exact parse_u8_digit_lib_eq. Qed.
+Print Assumptions C08_decimal_field_through_library.
+
+Theorem C08_checksum_field_through_library :
+  forall l, hex_u32_nom l = hex_u32 l.
+Proof. exact hex_u32_nom_eq. Qed.
+Print Assumptions C08_checksum_field_through_library.
 
 Example C08_nonvacuous_accept :
   accepted_at_sentence_level Std quirks_asis (bytes "\s:2573345,c:1696241893*00\!AIVDM,1,1,,A,E>kb9I99S@0`8@:9ah;0TahI7@@;V4=v:nv;h00003vP100,0*7A").
